@@ -13,11 +13,18 @@ pub struct Shrinker<'a> {
     pub invariant: String,
     pub runs: usize,
     pub budget: usize,
+    /// wall-clock limit for the whole minimisation (a case with tens of thousands of files costs
+    /// seconds per candidate)
+    pub deadline: std::time::Instant,
 }
 
 impl<'a> Shrinker<'a> {
+    fn expired(&self) -> bool {
+        self.runs >= self.budget || std::time::Instant::now() > self.deadline
+    }
+
     fn fails(&mut self, case: &Case) -> Option<Violation> {
-        if self.runs >= self.budget {
+        if self.runs >= self.budget || std::time::Instant::now() > self.deadline {
             return None;
         }
         self.runs += 1;
@@ -37,11 +44,11 @@ impl<'a> Shrinker<'a> {
         // 1. drop everything after the failing step
         cur.steps.truncate(v0.step + 1);
         let mut progress = true;
-        while progress && self.runs < self.budget {
+        while progress && !self.expired() {
             progress = false;
             // 2. drop earlier steps
             let mut i = 0;
-            while i + 1 < cur.steps.len() {
+            while i + 1 < cur.steps.len() && !self.expired() {
                 let mut c = cur.clone();
                 c.steps.remove(i);
                 if self.fails(&c).is_some() {
@@ -98,7 +105,42 @@ impl<'a> Shrinker<'a> {
                         progress = true;
                     }
                 }
-                // 4. drop paths from a file list
+                // 4a. drop paths from a file list in halves, quarters, ... (long lists)
+                let mut chunk = match &cur.steps[si] {
+                    Step::Inv(Inv { shape: Shape::Files { paths, .. }, .. }) => paths.len() / 2,
+                    _ => 0,
+                };
+                while chunk >= 2 && !self.expired() {
+                    let mut i = 0;
+                    loop {
+                        if self.expired() {
+                            break;
+                        }
+                        let n = match &cur.steps[si] {
+                            Step::Inv(Inv { shape: Shape::Files { paths, .. }, .. }) => paths.len(),
+                            _ => 0,
+                        };
+                        if i >= n || n <= 1 {
+                            break;
+                        }
+                        let mut c = cur.clone();
+                        if let Step::Inv(Inv { shape: Shape::Files { paths, .. }, .. }) = &mut c.steps[si] {
+                            let end = (i + chunk).min(paths.len());
+                            if end - i >= paths.len() {
+                                break;
+                            }
+                            paths.drain(i..end);
+                        }
+                        if self.fails(&c).is_some() {
+                            cur = c;
+                            progress = true;
+                        } else {
+                            i += chunk;
+                        }
+                    }
+                    chunk /= 2;
+                }
+                // 4b. drop paths from a file list one by one
                 loop {
                     let n = match &cur.steps[si] {
                         Step::Inv(Inv { shape: Shape::Files { paths, .. }, .. }) => paths.len(),
@@ -106,7 +148,7 @@ impl<'a> Shrinker<'a> {
                     };
                     let mut dropped = false;
                     for pi in 0..n {
-                        if n <= 1 {
+                        if n <= 1 || self.expired() {
                             break;
                         }
                         let mut c = cur.clone();
@@ -125,9 +167,38 @@ impl<'a> Shrinker<'a> {
                     }
                 }
             }
-            // 5. drop tree entries (with everything below them)
-            let keys: Vec<String> = cur.tree.keys().rev().cloned().collect();
+            // 5a. drop, in one go, every file that no remaining file list names
+            {
+                let mut named: std::collections::BTreeSet<String> = Default::default();
+                let mut only_lists = true;
+                for st in &cur.steps {
+                    match st {
+                        Step::Inv(Inv { shape: Shape::Files { paths, .. }, cwd, .. }) => {
+                            for p in paths {
+                                if let Some(k) = resolve(cwd, p) {
+                                    named.insert(k);
+                                }
+                            }
+                        }
+                        Step::Inv(Inv { shape: Shape::Stdin { .. }, .. }) => {}
+                        _ => only_lists = false,
+                    }
+                }
+                if only_lists && cur.tree.len() > 40 {
+                    let mut c = cur.clone();
+                    c.tree.retain(|k, n| matches!(n, Node::Dir) || named.contains(k));
+                    if c.tree.len() < cur.tree.len() && self.fails(&c).is_some() {
+                        cur = c;
+                        progress = true;
+                    }
+                }
+            }
+            // 5b. drop tree entries (with everything below them)
+            let keys: Vec<String> = if cur.tree.len() > 400 { Vec::new() } else { cur.tree.keys().rev().cloned().collect() };
             for k in keys {
+                if self.expired() {
+                    break;
+                }
                 if !cur.tree.contains_key(&k) {
                     continue;
                 }
@@ -175,10 +246,10 @@ impl<'a> Shrinker<'a> {
         let mut best: Vec<Vec<u8>> = lines.iter().map(|l| l.to_vec()).collect();
         let mut improved = false;
         let mut chunk = (best.len() / 2).max(1);
-        while chunk >= 1 && self.runs < self.budget {
+        while chunk >= 1 && !self.expired() {
             let mut i = 0;
             let mut any = false;
-            while i < best.len() && best.len() > 1 {
+            while i < best.len() && best.len() > 1 && !self.expired() {
                 let mut cand = best.clone();
                 let end = (i + chunk).min(cand.len());
                 cand.drain(i..end);
